@@ -63,14 +63,14 @@ Definition cg_log (tr : list (tid * cev)) : list (tid * gev) :=
 Definition main_stops (tr : list (tid * cev)) : list bool :=
   flat_map (fun e => match e with (0, CG (ECall (TGuard GStop) b)) => [b] | _ => [] end) tr.
 
-(* every operation is made by the thread it belongs to: spawn/get/join/status by the caller of run(),
-   a put by the worker it names, Tfr events by anybody started *)
+(* every operation the statement speaks about is made by the thread it belongs to: spawn / join / status by the
+   caller of run(), calls on the caller's result (Tfr events) by anybody started.  Queue operations are internal:
+   whether the suite uses a completion / event queue at all, and who puts or gets what, is not constrained. *)
 Definition own_thread (n : nat) (e : tid * cev) : bool :=
   match e with
   | (t, CSpawn w) | (t, CJoin w) | (t, CStatus w _ _ _ _ _) => (t =? 0) && (w <? n)
-  | (t, CGet _) | (t, CGetIntr) => t =? 0
-  | (t, CPut (QToken w)) | (t, CPut (QStart w)) | (t, CPut (QStop w)) | (t, CPut (QStatus w _ _ _ _)) =>
-      (t =? S w) && (w <? n)
+  | (t, CGetIntr) => t =? 0
+  | (t, CGet _) | (t, CPut _) => true
   | (t, CG _) => t <=? n
   end.
 
@@ -104,9 +104,10 @@ Definition common_okb (n : nat) (mt : option nat) (o : obs) : bool :=
            && (existsb (fun b => b) (main_stops (o_trace o))            (* and - unless a stop() of the caller's result itself
                                                                            raised inside the abort handler: then nothing more
                                                                            is demanded than that the exception propagates - *)
-               || forallb (fun w => memb w (o_stops o)) unreaped)       (* every started worker not yet joined is among them;
-                                                                           in which order, and whether joined ones are told
-                                                                           too, is left open *)
+               || forallb_idx (fun w alive => negb alive || memb w (o_stops o)) 0 (o_live o))
+                                                                        (* every worker still running (alive when run() ended)
+                                                                           is among them; in which order, and whether workers
+                                                                           that have finished are told too, is left open *)
       else match o_stops o with [] => true | _ => false end).
 
 (* ---------- stream: delivery ---------- *)
@@ -221,11 +222,11 @@ Definition Common (n : nat) (mt : option nat) (o : obs) : Prop :=
   /\ (o_raised o = false -> o_stops o = [])
   /\ (o_raised o = true ->                                                 (* aborted: only started workers are told to stop *)
       forall w, In w (o_stops o) -> w < k)
-  /\ (o_raised o = true ->                                                 (* ... and every started worker not yet joined is -
-                                                                              in any order, joined ones possibly too - unless a
+  /\ (o_raised o = true ->                                                 (* ... and every worker still running is - in any
+                                                                              order, finished ones possibly too - unless a
                                                                               stop() of the caller's result itself raised *)
       (forall b, In b (main_stops (o_trace o)) -> b = false) ->
-      forall w, In w unreaped -> In w (o_stops o)).
+      forall w, nth_error (o_live o) w = Some true -> In w (o_stops o)).
 
 (* stream: what main passed on from worker w (w = the w-th sub-suite's StreamToQueue; several sub-suites
    may have been given the SAME route code, so a route code does not identify a worker) is, event for
